@@ -261,6 +261,38 @@ func checkC14(c *Checker) {
 		}
 		c.expect(ok, "C14-P", "C.SetSample", c.pos(fn.Pos()), "stores parent element "+pretty(want), fmt.Sprintf("C.SetSample(i,v) is not exactly one store to parent element %s: %s", pretty(want), got))
 	}
+	// B: the view's accessors have no precondition beyond the parent's own access data[channels*i+c]
+	c.rule("C14-B", "no extra precondition: every index/slice bound evaluated by C.Sample and C.SetSample is implied by 0 <= channels*i+c < len(parent data) (so the view can reach every sample the parent can, including a partial last frame)", 2)
+	for _, name := range []string{"Sample", "SetSample"} {
+		fn, s := get("C14-B", name)
+		if fn == nil {
+			continue
+		}
+		pb, chn := parent(fn)
+		want := normInt(specAdd(specMul(pb.ch(), mkAtom(paramName(fn, 1), intT)), chn))
+		ok, d := true, ""
+		n := 0
+		for _, o := range retPaths(s) {
+			for _, e := range effectsOf(o, EIndex) {
+				n++
+				f := e.Facts.clone()
+				f.add(Cond{Kind: CGE0, P: want})
+				f.add(Cond{Kind: CGE0, P: normInt(pb.lenT()).Sub(want).AddInt(-1)})
+				f.add(Cond{Kind: CGE0, P: normInt(pb.capT()).Sub(normInt(pb.lenT()))})
+				f.add(Cond{Kind: CGE0, P: normInt(pb.ch()).AddInt(-1)})
+				f.add(Cond{Kind: CGE0, P: normInt(chn)})
+				f.add(Cond{Kind: CGE0, P: normInt(pb.ch()).Sub(normInt(chn)).AddInt(-1)})
+				f.add(Cond{Kind: CGE0, P: normInt(mkAtom(paramName(fn, 1), intT))})
+				if !boundsImpliedUnder(e, f) {
+					ok, d = false, fmt.Sprintf("%s at %s is not implied by the validity of the parent's access: the view panics where the parent does not", e.String(), c.effPos(e))
+				}
+			}
+		}
+		if len(panicPaths(s)) > 0 {
+			ok, d = false, "explicit panic path in the view accessor"
+		}
+		c.expect(ok, "C14-B", "C."+name, c.pos(fn.Pos()), fmt.Sprintf("%d bounds implied by the parent's access", n), d)
+	}
 	if fn, s := get("C14-P", "BufferIndex"); fn != nil {
 		pb, chn := parent(fn)
 		want := specAdd(specMul(pb.ch(), mkAtom(paramName(fn, 2), intT)), chn)
@@ -310,6 +342,7 @@ func checkC14(c *Checker) {
 }
 
 func checkC13(c *Checker) {
+	depthInvariant(c, "C13-D0")
 	c.rule("C13-A1", "Alloc: data is one make([]T, Channels*Length, Channels*Capacity) with no element store (zeroed), fresh and not stored elsewhere; channels = Channels; fresh header", 1)
 	c.rule("C13-A2", "bit-depth table: getBitDepth[T] evaluates to 8*sizeof(T) for every term of the type set, as built-in and as named type", 26)
 	c.rule("C13-A3", "accessor normal forms (C02-R3) report the shape", 4)
